@@ -47,7 +47,13 @@ NumProg == <<Ob(Var(X)), Bar, Ob(Fl(Var(X), "plus", <<Lit(IntV(1))>>)), Bar, Ob(
              Bit(Cmp("==", Var(X), Lit(Flt(2, 1)))), Bar, Ob(Fl(Lit(IntV(14)), "divided_by", <<Var(Y)>>)), Bar,
              Ob(Fl(Lit(IntV(9)), "minus", <<Var(X)>>)), Bar, Ob(Fl(Var(X), "abs", <<>>)), Bar,
              Bit(Cmp("contains", Var(A), Var(X))), Bar, [t |-> "case", e |-> Var(X), pre |-> <<>>,
-                whens |-> <<[vals |-> <<Lit(IntV(2))>>, body |-> <<T(<<116>>)>>], [else |-> TRUE, vals |-> <<>>, body |-> <<T(<<101>>)>>]>>]>>
+                whens |-> <<[vals |-> <<Lit(IntV(2))>>, body |-> <<T(<<116>>)>>], [else |-> TRUE, vals |-> <<>>, body |-> <<T(<<101>>)>>]>>], Bar,
+             \* what arithmetic on the binding gives is a number like any other, whatever width the binding had: as a divisor
+             \* later on, and printed when it is large
+             [t |-> "assign", name |-> <<114>>, e |-> Fl(Var(X), "plus", <<Lit(IntV(3))>>)], Ob(Fl(Lit(IntV(30)), "divided_by", <<Var(<<114>>)>>)), Bar,
+             [t |-> "assign", name |-> <<114>>, e |-> Fl(Var(Y), "times", <<Lit(IntV(2))>>)], Ob(Fl(Lit(IntV(21)), "divided_by", <<Var(<<114>>)>>)), Bar,
+             [t |-> "assign", name |-> <<114>>, e |-> Fl(Lit(IntV(9)), "minus", <<Var(X)>>)], Ob(Fl(Lit(IntV(126)), "divided_by", <<Var(<<114>>)>>)), Bar,
+             Ob(Fl(Var(Y), "times", <<Lit(IntV(500000))>>))>>
 FltProg == <<Ob(Var(X)), Bar, Ob(Fl(Var(X), "plus", <<Lit(IntV(1))>>)), Bar, Bit(Cmp("==", Var(X), Lit(Flt(5, 2)))), Bit(Cmp("<", Var(X), Lit(IntV(3)))),
              Bar, Ob(Fl(Var(X), "floor", <<>>)), Bar, Ob(Fl(Lit(IntV(5)), "divided_by", <<Var(X)>>))>>
 SeqProg == <<[t |-> "for", tag |-> "for", var |-> <<105>>, coll |-> Var(A), body |-> <<Ob(Var(<<105>>)), T(<<44>>)>>], Bar,
